@@ -730,7 +730,7 @@ theorem turn_post (cfg : Cfg) (f : Nat) (s : S α) (b : Bool) (a : Int) (h : Goo
         (.turnStart id av total (orderOf st))) .phase1Start)) false)) := by
       obtain ⟨b', hp⟩ := phase2_post cfg f _ 7 id g2 (Or.inl rfl)
       exact ⟨b', id, hp⟩
-    split <;> split <;> first | exact hA | skip
+    split <;> first | exact hA | skip
     all_goals
       have p3 := executeQueue_post cfg f _ true 7 true id g2 (Or.inl rfl)
       split
